@@ -2,6 +2,7 @@
 mod backends;
 mod c05;
 mod c09;
+mod c10;
 mod c12;
 mod c13;
 mod c15;
@@ -14,6 +15,7 @@ mod c31;
 mod c32;
 mod c33;
 mod exec;
+mod execc;
 mod wasmbuild;
 
 use proptest::prelude::*;
@@ -43,6 +45,7 @@ fn main() {
     match args.id.as_str() {
         "C05" | "C06" => c05::run(&mut check),
         "C09" => c09::run(&mut check),
+        "C10" | "C11" => c10::run(&mut check),
         "C12" => c12::run(&mut check),
         "C13" => c13::run(&mut check),
         "C15" => c15::run(&mut check),
